@@ -277,7 +277,7 @@ func copyFields(f map[string]string) map[string]string {
 func init() {
 	Register(&sim.Check{
 		ID: "C09", Level: "exploration", Run: runC09,
-		Rule: "C01 histories; after most steps a random subset of the live intents (ruling, shadowed or mixed) is re-submitted verbatim in a drawn input form (typed/string/JSON/JSON_IETF of the same data). The direct device captures the proto view plus JSON, JSON_IETF and the 8 XML documents of the same tree: all must be empty in content, the response must be empty and both stores unchanged. Non-trivial = a re-submission that mixes ruling and shadowed leaves; distinct = signature incl. forms and shadowed/ruling mix.",
+		Rule: "C01 histories; after most steps a random subset of the live intents (ruling, shadowed or mixed) is re-submitted verbatim in a drawn input form (typed/string/JSON/JSON_IETF of the same data). The direct device captures the proto view plus JSON, JSON_IETF and the 8 XML documents of the same tree: all must be empty in content, the response must be empty and both stores unchanged; with the real gnmiTarget as device the decoded SetRequest must carry nothing. Before a third of the re-submissions the device reports its whole configuration back through the real Datastore.Sync in a native format (gNMI notifications per container with prefix, typed or JSON_IETF values; flat gNMI; NETCONF get-config reply through ncTarget.Get and the XML adapter). Non-trivial = a re-submission that mixes ruling and shadowed leaves; distinct = signature incl. forms and shadowed/ruling mix.",
 		Real: realCore, Stub: stubCore,
 		RequiredProbes: []string{"resubmit-shadowed", "resubmit-ruling", "resubmit-mixed"},
 		QuickSeconds:   35, ThoroughSeconds: 600,
